@@ -3,6 +3,7 @@ package main
 // Calls: builtins, contracts (modular), inlining, assumed stdlib contracts.
 
 import (
+	"go/constant"
 	"fmt"
 	"go/types"
 	"math/big"
@@ -159,7 +160,11 @@ func (x *Exec) applyContract(fc *frameCtx, st *State, i *ssa.Call, callee *ssa.F
 	for k, r := range con.Requires {
 		t := x.evalBool(cfc, st, r, nil)
 		if !x.noSafety {
-			x.oblige(st, "pre:"+name, fmt.Sprintf("%s@%s", r.String(), x.exprText(i, i.Pos())), i.Pos(), t, nil)
+			site := fmt.Sprintf("%s@%s", r.String(), x.exprText(i, i.Pos()))
+			if x.curLabel != "" {
+				site = x.curLabel + ":" + site
+			}
+			x.oblige(st, "pre:"+name, site, i.Pos(), t, nil)
 		} else {
 			x.Sc.Assert(tImp(st.Guard, t))
 		}
@@ -620,7 +625,22 @@ func (x *Exec) stdlibCall(fc *frameCtx, st *State, i *ssa.Call, callee *ssa.Func
 		assume("returns a fresh non-nil error")
 		ref := x.bump(st, mkInt(1))
 		return IfaceV{mkInt(int64(x.W.typeID(types.Typ[types.UnsafePointer]))), ref}
-	case "strings.SplitN", "strconv.ParseUint", "strconv.ParseInt", "strconv.Quote", "strconv.Itoa", "strings.Replace", "fmt.Sprintf", "strings.Repeat", "strings.Join", "strings.TrimSuffix", "strings.TrimPrefix", "strings.Split":
+	case "fmt.Sprintf":
+		res := x.havocResult(st, i, callee)
+		if c, ok := i.Common().Args[0].(*ssa.Const); ok && c.Value != nil && c.Value.Kind() == constant.String {
+			f := constant.StringVal(c.Value)
+			n := 0
+			for n < len(f) && f[n] != '%' {
+				n++
+			}
+			if n > 0 {
+				assume("the result starts with the literal prefix of a constant format string (so it is at least that long)")
+				x.Sc.Assert(tImp(st.Guard, tGe(x.strLen(res.(*Term)), mkInt(int64(n)))))
+			}
+		}
+		assume("pure; result otherwise unconstrained (fresh allocation)")
+		return res
+	case "strings.SplitN", "strconv.ParseUint", "strconv.ParseInt", "strconv.Quote", "strconv.Itoa", "strings.Replace", "strings.Repeat", "strings.Join", "strings.TrimSuffix", "strings.TrimPrefix", "strings.Split":
 		assume("pure; result unconstrained (fresh allocation)")
 		return x.havocResult(st, i, callee)
 	}
